@@ -203,8 +203,15 @@ func (c *SessionCache) LookupNonExpired(id string) (*SessionEntry, bool) {
 
 	// Check if expired
 	if entry.IsExpired() {
-		// Remove expired session
+		// Remove the expired session and every command mapping that leads to it
+		// (as Invalidate does): a mapping left behind would route to whatever
+		// entry is stored under the same id later.
 		delete(c.sessions, id)
+		for key, sessID := range c.commandMap {
+			if sessID == id {
+				delete(c.commandMap, key)
+			}
+		}
 		return nil, false
 	}
 
